@@ -14,9 +14,14 @@ TRAIT_KINDS = ["T000", "T001", "T010", "T011", "T100", "T101", "T110", "T111"]
 
 
 def R(lst, alloc="AE", mode="hist", nmax=3, cmax=2, bmax=4, depth=6, junk=0, base=0, arena1=0, faults=0, fixed=None,
-      max_states=400000):
+      max_states=400000, cscale=1):
     return dict(list=lst, alloc=alloc, mode=mode, nmax=nmax, cmax=cmax, bmax=bmax, depth=depth, junk=junk, base=base,
-                arena1=arena1, faults=faults, fixed=fixed, max_states=max_states)
+                arena1=arena1, faults=faults, fixed=fixed, max_states=max_states, cscale=cscale)
+
+
+def big_runs(lists, tier, mode="hist", depth=5, **kw):
+    """the same alphabets with larger objects counts: spans of 4/8 objects (16..64 bytes), fixed sizes 8"""
+    return [R(l, "AE", mode, depth=depth, junk=1, cscale=4, fixed="8", **kw) for l in lists]
 
 
 def hist_runs(lists, tier, allocs=("AE",), mode="hist", **kw):
@@ -57,13 +62,15 @@ def spec(prop, tier):
     if prop == "C01":
         if q:
             primary = ["P1", "P3", "F1", "F3", "V1", "V3", "V4", "M1"]
-            return hist_runs(primary, tier, depth=8) + hist_runs([l for l in ALL_LISTS if l not in primary], tier, depth=6)
+            return hist_runs(primary, tier, depth=8) + hist_runs([l for l in ALL_LISTS if l not in primary], tier, depth=6) + \
+                big_runs(["F1", "F3", "V1", "V2", "V3", "V5", "M1", "M2"], tier, depth=6)
         return hist_runs(ALL_LISTS, tier, allocs=("AE", "NP"), nmax=4, cmax=3, bmax=6, depth=7)
     if prop == "C16":
         if q:
             primary = ["P1", "F3", "V1", "V3", "M1"]
             return hist_runs(primary, tier, depth=7) + \
                 [R(l, "AE", "hist", depth=5, junk=1) for l in ALL_LISTS if l not in primary] + \
+                big_runs(["F3", "V1", "V3", "M1"], tier, depth=5) + \
                 pair_runs(["F3", "V1", "V3"], ["AE", "PP"], tier, 5) + pair_runs(["P3", "F2", "V5", "M2"], ["NP"], tier, 4)
         return hist_runs(ALL_LISTS, tier, allocs=("AE", "NP"), nmax=4, cmax=3, bmax=6, depth=6) + \
             pair_runs(ALL_LISTS, ["AE", "NP", "PP"], tier, 5)
@@ -72,7 +79,8 @@ def spec(prop, tier):
         if q:
             pick = {"C02": ["P2", "F2", "V1", "V2", "V5", "V6", "M1", "M2"], "C03": ["P2", "F2", "V1", "V5", "V6", "V7", "M1"],
                     "C04": ["P3", "F2", "F5", "V2", "V5", "V6", "M1", "M2"], "C05": ["P2", "F2", "V1", "V5", "V6", "M1"]}[prop]
-            runs = hist_runs(pick, tier, depth=6) + [R(l, "AE", "hist", depth=5, junk=1) for l in lists if l not in pick]
+            runs = hist_runs(pick, tier, depth=6) + [R(l, "AE", "hist", depth=5, junk=1) for l in lists if l not in pick] + \
+                big_runs([l for l in ("F2", "V1", "V2", "V5", "V8", "M1") if l in lists], tier, depth=5)
             if prop in ("C03", "C05"):
                 runs += pair_runs([l for l in pick if l in ("F2", "V1", "V5", "M1")], ["NP"], tier, 4)
             if prop == "C04":
@@ -92,6 +100,7 @@ def spec(prop, tier):
         if q:
             primary = ["P3", "F3", "V3", "V4", "M2"]
             return hist_runs(primary, tier, depth=7) + [R(l, "AE", "hist", depth=6, junk=1) for l in TRACKED if l not in primary] + \
+                big_runs(["F3", "V3", "V9", "M2"], tier, depth=5) + \
                 pair_runs(["F3", "V3"], ["AE", "NP"], tier, 5) + pair_runs(["P3", "P5", "F4", "F6", "V7", "V10", "M2", "M3"], ["NP"], tier, 4) + \
                 elem_runs(["F3", "V3"], ["NP"], tier, 3) + elem_runs(["P5", "F4", "F6", "V10", "M2", "V7"], ["NP"], tier, 2)
         return hist_runs(TRACKED, tier, allocs=("AE",), nmax=4, cmax=3, bmax=6, depth=6) + \
@@ -118,7 +127,8 @@ def spec(prop, tier):
     if prop == "C10":
         if q:
             return hist_runs(["F1", "V1", "V3", "M1"], tier, mode="c10", depth=4) + \
-                hist_runs(["P1", "F3", "V2", "V5", "V7", "M2"], tier, mode="c10", depth=3)
+                hist_runs(["P1", "F3", "V2", "V5", "V7", "M2"], tier, mode="c10", depth=3) + \
+                big_runs(["F1", "V1", "V3", "M1"], tier, mode="c10", depth=3)
         return hist_runs(ALL_LISTS, tier, allocs=("AE", "NP"), mode="c10", nmax=4, cmax=3, bmax=6, depth=4)
     if prop == "C11":
         pl = ["P1", "P3", "P4", "F1", "F3", "F4", "F5", "V1", "V3", "M2"]
@@ -177,12 +187,15 @@ def engine_argv(binpath, r, prop, outfile, workers, deadline):
         argv += ["--faults", str(r["faults"])]
     if r["fixed"]:
         argv += ["--fixed", r["fixed"]]
+    if r.get("cscale", 1) != 1:
+        argv += ["--cscale", str(r["cscale"])]
     return argv
 
 
 def run_key(r):
     return "%s_%s_%s_j%d_b%d_a%d_f%d%s" % (r["list"], r["alloc"], r["mode"], r["junk"], r["base"], r["arena1"], r["faults"],
-                                            ("_x" + r["fixed"].replace(",", ".")) if r["fixed"] else "")
+                                            (("_x" + r["fixed"].replace(",", ".")) if r["fixed"] else "") +
+                                            (("_s%d" % r["cscale"]) if r.get("cscale", 1) != 1 else ""))
 
 
 def collect(prop, tier, runs, t0, deadline_s):
